@@ -454,9 +454,10 @@ def _slice(ex, args, kwargs, fr):
 @libfn("builtins.enumerate")
 def _enumerate(ex, args, kwargs, fr):
     start = int_of(kwargs.get("start", args[1] if len(args) > 1 else VInt(0)))
-    v = args[0]
+    v = as_seq(ex, args[0], fr)
     if isinstance(v, VSeq):
         return VSeq(v.n, lambda i: VTuple([VInt(z_int(start) + i), v.get(i)]), None, "list")
+    v = args[0]
     return ex.st.alloc(HList([VTuple([VInt(start + i if is_conc(start) else start + i), x]) for i, x in enumerate(ex.iterate(v, fr))]))
 
 
@@ -468,6 +469,9 @@ def as_seq(ex, v, fr):
         c = ex.st.cell(v)
         if len(c.shape) == 1 and not is_conc(c.shape[0]):
             return VSeq(z_int(c.shape[0]), lambda i, c=c: c.elem((i,)), None, "list")
+        if len(c.shape) > 1 and not is_conc(c.shape[0]):
+            from . import arrays
+            return VSeq(z_int(c.shape[0]), lambda i, v=v: arrays.arr_getitem(ex, v, VInt(i)), None, "list")
     if isinstance(v, VRange) and not (is_conc(int_of(v.lo)) and is_conc(int_of(v.hi))):
         lo, hi = z_int(int_of(v.lo)), z_int(int_of(v.hi))
         return VSeq(z3.If(hi > lo, hi - lo, 0), lambda i: VInt(lo + i), None, "list")
